@@ -279,6 +279,19 @@ def plan(tier: str) -> list[tuple]:
     return tasks
 
 
+def replay_case(raw: dict, part: Part) -> None:
+    backends.setup_determinism()
+    backends.sqlite_template()
+    env = Env(raw["config"])
+    try:
+        if "direction" in raw:
+            check_single(env, StudyDirection[raw["direction"]], tuple(raw["history"]), raw["finish_order"], part, raw["config"])
+        else:
+            check_multi(env, [StudyDirection[d] for d in raw["directions"]], tuple(raw["history"]), raw["finish_order"], part, raw["config"])
+    finally:
+        env.close()
+
+
 def run(tier: str, replay: str | None = None) -> int:
     backends.setup_determinism()
     ctx = Ctx(PID, tier, "model_checking")
